@@ -105,3 +105,34 @@ Proof.
     + exact Hok.
     + rewrite Hl. cbn [bind]. exists r, a, f130. cbn [Nat.add] in *. split; [lia|]. auto.
 Qed.
+
+(* ---- inversion: whatever _find_sparse_enough_range returns is the range of some level that passed its test *)
+Lemma sparse_loop_inv orig w b e frac : forall (n s : nat) thresh0 r,
+  sparse_loop orig w b e frac thresh0 (map Z.of_nat (seq s n)) = Ok (Some r) ->
+  exists a, (a < n)%nat /\ range_around_float b (Z.of_nat (s + a)) = Ok r /\
+            level_ok orig w b e (thr_from frac thresh0 a) (Z.of_nat (s + a)) = true.
+Proof.
+  induction n as [|n IH]; intros s thresh0 r H; cbn [seq map sparse_loop] in H; [discriminate|].
+  destruct (range_around_float b (Z.of_nat s)) as [r0|c0] eqn:E0; cbn [bind] in H; [|discriminate].
+  destruct (count_range orig w (fst r0) (snd r0) <=? 0) eqn:Ec; [discriminate|]. apply Z.leb_gt in Ec.
+  destruct (fle e (snd r0) && flt (of_Z (count_range orig w (fst r0) (snd r0))) thresh0) eqn:Et.
+  - inversion H; subst r0. exists 0%nat. split; [lia|]. rewrite Nat.add_0_r. split; [exact E0|].
+    unfold level_ok. rewrite E0. cbn [thr_from].
+    replace (0 <? count_range orig w (fst r) (snd r)) with true by (symmetry; apply Z.ltb_lt; lia).
+    rewrite <- andb_assoc. exact Et.
+  - destruct (IH (S s) (fmul thresh0 frac) r H) as (a & Ha & Hr & Hk).
+    exists (S a). split; [lia|]. replace (s + S a)%nat with (S s + a)%nat by lia. split; [exact Hr | exact Hk].
+Qed.
+
+Theorem find_sparse_inv orig w b e r : find_sparse_enough_range orig w b e = Ok r ->
+  exists (a : nat) frac, (a < 64)%nat /\ (frac = f114 \/ frac = f130) /\
+    range_around_float b (Z.of_nat a) = Ok r /\ level_ok orig w b e (thr frac a) (Z.of_nat a) = true.
+Proof.
+  unfold find_sparse_enough_range. rewrite zrange_0_64. intros H.
+  destruct (sparse_loop orig w b e f114 (of_Z 1) (map Z.of_nat (seq 0 64))) as [[r1|]|c1] eqn:E1; cbn [bind] in H; [| |discriminate].
+  - inversion H; subst r1. destruct (sparse_loop_inv _ _ _ _ _ _ _ _ _ E1) as (a & Ha & Hr & Hk).
+    exists a, f114. cbn [Nat.add] in *. auto.
+  - destruct (sparse_loop orig w b e f130 (of_Z 1) (map Z.of_nat (seq 0 64))) as [[r2|]|c2] eqn:E2; cbn [bind] in H; try discriminate.
+    inversion H; subst r2. destruct (sparse_loop_inv _ _ _ _ _ _ _ _ _ E2) as (a & Ha & Hr & Hk).
+    exists a, f130. cbn [Nat.add] in *. auto.
+Qed.
